@@ -43,6 +43,9 @@ var c14Addrs = []string{"10.1.2.3", "192.168.0.9", "::1", "2001:db8::1", "fe80::
 var c14OtherTags = []string{"v1", "blue", "prod", "a b", "q\"uote", "back\\slash", "comma,inside", "ünï", " padded ", "tab\there", "x=y", "urlprefix", "", "\"", "new\nline"}
 var c14Hosts = []string{"", "a.com", "A.Com", "x.y.org:8080", "*.wild.net", "$DC.dc.test"}
 var c14Paths = []string{"/", "/foo", "/Foo/Bar", "/a/b/", "/$DC/x"}
+
+// prefixes with control characters: the tag parser splits on blanks only, so tabs and newlines end up inside the command
+var c14HostilePaths = []string{"/\thttp://10.6.6.6:1/\nroute\tadd\tevil\ty.com/[a", "/a\nroute del good", "/x\ty", "/a\rb", "/q\"uote", "/[unclosed"}
 var c14OptPool = []string{"strip=/foo", "prepend=/p", "host=dst", "host=name.test", "tlsskipverify=true", "allow=ip:10.0.0.0/8", "deny=ip:1.2.3.4", "auth=basic", "register=alias", "pxyproto=true", "unknownopt=1", "flagonly"}
 var c14Weights = []string{"0.5", "1", "0", "0.25", "2", "-1", "abc", "Inf", "NaN", "1e400", "", "1e-5", "0x1p-2", "+0.5", ".5", "1_0"}
 
@@ -57,6 +60,10 @@ func genC14(r *rand.Rand) *c14Case {
 		t := c14Tag{Opts: map[string]string{}, Safe: true}
 		t.Host = choose(r, c14Hosts)
 		t.Path = choose(r, c14Paths)
+		if r.Intn(25) == 0 {
+			t.Path = choose(r, c14HostilePaths)
+			t.Safe = false
+		}
 		src := t.Host + t.Path
 		if r.Intn(8) == 0 {
 			src = ":" + strconv.Itoa(1000+r.Intn(9000)) // tcp style prefix
